@@ -47,6 +47,10 @@ func (e *Envelope) SetPayload(payload any) error {
 		return err
 	}
 
+	// Canonical JSON leaves control characters in strings as they are, which
+	// no JSON parser accepts. The payload has to be a valid JSON document.
+	encodedBytes = escapeControlCharacters(encodedBytes)
+
 	e.payload = payload
 	e.envelope = &dsse.Envelope{
 		Payload:     base64.StdEncoding.EncodeToString(encodedBytes),
@@ -163,4 +167,18 @@ func getSSLibKeyFromKey(key Key) signerverifier.SSLibKey {
 			Certificate: key.KeyVal.Certificate,
 		},
 	}
+}
+
+// escapeControlCharacters replaces the control characters in canonical JSON,
+// where they can only occur inside of strings, by their JSON escape sequence.
+func escapeControlCharacters(canonical []byte) []byte {
+	escaped := make([]byte, 0, len(canonical))
+	for _, b := range canonical {
+		if b < 0x20 {
+			escaped = append(escaped, []byte(fmt.Sprintf("\\u%04x", b))...)
+			continue
+		}
+		escaped = append(escaped, b)
+	}
+	return escaped
 }
